@@ -552,7 +552,9 @@ pub fn run(ctx: &Ctx) {
     key_block(ctx);
     pass_block(ctx);
     production_block(ctx);
-    cli_block(ctx);
+    if !crate::lib_only() {
+        cli_block(ctx);
+    }
     ctx.require("cli key extend: rejected", 3);
     ctx.require("cli password extend: rejected", 6);
     ctx.require("cli password truncate: rejected", 4);
